@@ -22,3 +22,131 @@ Example C03_spec_check_value : spec_crc16 [49;50;51;52;53;54;55;56;57] = 0x4B37.
 Proof. vm_compute. reflexivity. Qed.
 Example C03_doc_frame : crc_trailer [0x01; 0x04; 0x02; 0xFF; 0xFF] = [0xB8; 0x80].
 Proof. vm_compute. reflexivity. Qed.
+
+(* ---------------------------------------------------------------------------------------------- *)
+(* (b), (c): frames.  Proofs in proofs/CrcFrameProofs.v.                                           *)
+(* ---------------------------------------------------------------------------------------------- *)
+Require Import MB.Spec MB.PacketModel MB.proofs.CrcFrameProofs.
+
+(* (b) every RTU frame the model encoders emit -- request, response, exception -- is the body
+   followed by the CRC of the body, low byte first; unconditionally for the code's own CRC16 ... *)
+Theorem C03_request_frames_end_in_crc : forall r,
+  req_bytes_rtu r = req_body r ++ [crc16 (req_body r) mod 256; (crc16 (req_body r) / 256) mod 256].
+Proof. exact req_rtu_crc. Qed.
+Print Assumptions C03_request_frames_end_in_crc.
+
+Theorem C03_response_frames_end_in_crc : forall p,
+  resp_bytes_rtu p = resp_body p ++ [crc16 (resp_body p) mod 256; (crc16 (resp_body p) / 256) mod 256].
+Proof. exact resp_rtu_crc. Qed.
+Print Assumptions C03_response_frames_end_in_crc.
+
+Theorem C03_exception_frames_end_in_crc : forall u f c,
+  exc_bytes_rtu u f c =
+    [u; add8 f 128; c] ++ [crc16 [u; add8 f 128; c] mod 256; (crc16 [u; add8 f 128; c] / 256) mod 256].
+Proof. exact exc_rtu_crc. Qed.
+Print Assumptions C03_exception_frames_end_in_crc.
+
+(* ... and, for packets whose fields have their Go types (uint8 / uint16 / []byte: [req_fields_ok],
+   [resp_fields_ok]), that is the trailer of the serial-line specification: the last two bytes of
+   the frame are the specified CRC of all the bytes before them ([ends_in_crc]) *)
+Theorem C03_request_frames_spec_crc : forall r, req_fields_ok r ->
+  req_bytes_rtu r = req_body r ++ spec_trailer (req_body r) /\ ends_in_crc (req_bytes_rtu r).
+Proof. exact req_rtu_spec_crc. Qed.
+Print Assumptions C03_request_frames_spec_crc.
+
+Theorem C03_response_frames_spec_crc : forall p, resp_fields_ok p ->
+  resp_bytes_rtu p = resp_body p ++ spec_trailer (resp_body p) /\ ends_in_crc (resp_bytes_rtu p).
+Proof. exact resp_rtu_spec_crc. Qed.
+Print Assumptions C03_response_frames_spec_crc.
+
+Theorem C03_exception_frames_spec_crc : forall u f c, u < 256 -> c < 256 ->
+  exc_bytes_rtu u f c = [u; add8 f 128; c] ++ spec_trailer [u; add8 f 128; c] /\
+  ends_in_crc (exc_bytes_rtu u f c).
+Proof. exact exc_rtu_spec_crc. Qed.
+Print Assumptions C03_exception_frames_spec_crc.
+
+Theorem C03_exception_frame_is_spec_adu : forall u f c, u < 256 -> f < 128 -> c < 256 ->
+  exc_bytes_rtu u f c = exception_adu_rtu u f c.
+Proof. exact exc_rtu_is_spec. Qed.
+Print Assumptions C03_exception_frame_is_spec_adu.
+
+(* (c) the CRC-verifying entry points: for every slice with at least 4 visible bytes (whatever its
+   spare capacity) the frame is refused with ErrInvalidCRC if and only if its last two bytes
+   ([frame_trailer]) differ from the CRC of the rest ([frame_front]); otherwise the result is that
+   of the non-verifying dispatcher on the same slice *)
+Theorem C03_request_crc_enforced : forall d,
+  bytes_ok (vis d) -> (4 <= slen d)%nat ->
+  (parse_rtu_request_crc d = Err EInvalidCRC <-> frame_trailer d <> crc_trailer (frame_front d)) /\
+  (frame_trailer d = crc_trailer (frame_front d) -> parse_rtu_request_crc d = parse_rtu_request d).
+Proof. exact request_crc_enforced. Qed.
+Print Assumptions C03_request_crc_enforced.
+
+Theorem C03_response_crc_enforced : forall d,
+  bytes_ok (vis d) -> (4 <= slen d)%nat ->
+  (parse_rtu_response_crc d = Err EInvalidCRC <-> frame_trailer d <> crc_trailer (frame_front d)) /\
+  (frame_trailer d = crc_trailer (frame_front d) -> parse_rtu_response_crc d = parse_rtu_response d).
+Proof. exact response_crc_enforced. Qed.
+Print Assumptions C03_response_crc_enforced.
+
+(* the same against the specification's trailer *)
+Theorem C03_request_crc_enforced_spec : forall d,
+  bytes_ok (vis d) -> (4 <= slen d)%nat ->
+  (parse_rtu_request_crc d = Err EInvalidCRC <-> frame_trailer d <> spec_trailer (frame_front d)) /\
+  (frame_trailer d = spec_trailer (frame_front d) -> parse_rtu_request_crc d = parse_rtu_request d).
+Proof. exact request_crc_enforced_spec. Qed.
+Print Assumptions C03_request_crc_enforced_spec.
+
+Theorem C03_response_crc_enforced_spec : forall d,
+  bytes_ok (vis d) -> (4 <= slen d)%nat ->
+  (parse_rtu_response_crc d = Err EInvalidCRC <-> frame_trailer d <> spec_trailer (frame_front d)) /\
+  (frame_trailer d = spec_trailer (frame_front d) -> parse_rtu_response_crc d = parse_rtu_response d).
+Proof. exact response_crc_enforced_spec. Qed.
+Print Assumptions C03_response_crc_enforced_spec.
+
+(* shorter than 4 bytes: a plain error (not InvalidCRC, not a panic) *)
+Theorem C03_crc_entry_points_short : forall d, (slen d < 4)%nat ->
+  parse_rtu_request_crc d = Err EPlain /\ parse_rtu_response_crc d = Err EPlain.
+Proof. exact crc_entry_points_short. Qed.
+Print Assumptions C03_crc_entry_points_short.
+
+(* AsRTUErrorPacketWithCRC: recognises only CRC-correct 5-byte frames, and then sees exactly what
+   AsRTUErrorPacket sees; everything else is "not an exception packet" *)
+Theorem C03_as_rtu_error_crc : forall d,
+  bytes_ok (vis d) ->
+  (slen d <> 5%nat -> as_rtu_error_crc d = Ok None) /\
+  (slen d = 5%nat -> frame_trailer d <> crc_trailer (frame_front d) -> as_rtu_error_crc d = Ok None) /\
+  (slen d = 5%nat -> frame_trailer d = crc_trailer (frame_front d) -> as_rtu_error_crc d = as_rtu_error d).
+Proof. exact as_rtu_error_crc_cases. Qed.
+Print Assumptions C03_as_rtu_error_crc.
+
+Theorem C03_as_rtu_error_crc_sound : forall d x,
+  bytes_ok (vis d) -> as_rtu_error_crc d = Ok (Some x) ->
+  slen d = 5%nat /\ frame_trailer d = crc_trailer (frame_front d) /\ as_rtu_error d = Ok (Some x).
+Proof. exact as_rtu_error_crc_sound. Qed.
+Print Assumptions C03_as_rtu_error_crc_sound.
+
+Theorem C03_as_rtu_error_crc_no_panic : forall d, bytes_ok (vis d) -> as_rtu_error_crc d <> Panic.
+Proof. exact as_rtu_error_crc_no_panic. Qed.
+Print Assumptions C03_as_rtu_error_crc_no_panic.
+
+(* non-vacuity: the documented FC3 frames; one flipped trailer bit is refused, the exception frame
+   01 82 03 with its CRC is recognised, with a wrong CRC it is not (while AsRTUErrorPacket does) *)
+Example C03_doc_request_accepted :
+  parse_rtu_request_crc (exact [0x01; 0x03; 0x00; 0x6B; 0x00; 0x01; 0xf5; 0xd6]) = Ok (RRead 3 1 0x6B 1).
+Proof. vm_compute. reflexivity. Qed.
+Example C03_bad_trailer_refused :
+  parse_rtu_request_crc (exact [0x01; 0x03; 0x00; 0x6B; 0x00; 0x01; 0xf5; 0xd7]) = Err EInvalidCRC.
+Proof. vm_compute. reflexivity. Qed.
+Example C03_doc_response_accepted :
+  parse_rtu_response_crc (exact [0x01; 0x04; 0x02; 0xFF; 0xFF; 0xB8; 0x80]) = Ok (PBytes 4 1 2 [0xFF; 0xFF]).
+Proof. vm_compute. reflexivity. Qed.
+Example C03_exception_frame : exc_bytes_rtu 1 2 3 = [0x01; 0x82; 0x03; 0x00; 0xA1].
+Proof. vm_compute. reflexivity. Qed.
+Example C03_exception_recognised :
+  as_rtu_error_crc (exact [0x01; 0x82; 0x03; 0x00; 0xA1]) = Ok (Some (1, 2, 3)) /\
+  as_rtu_error_crc (exact [0x01; 0x82; 0x03; 0x00; 0xA0]) = Ok None /\
+  as_rtu_error (exact [0x01; 0x82; 0x03; 0x00; 0xA0]) = Ok (Some (1, 2, 3)).
+Proof. vm_compute. repeat split; reflexivity. Qed.
+Example C03_fields_ok_nonvacuous :
+  req_fields_ok (RRW 1 2 3 4 1 [0; 200]) /\ resp_fields_ok (PSrvId 1 255 [65; 66] [1]).
+Proof. cbn. repeat split; try lia; repeat constructor; lia. Qed.
